@@ -85,6 +85,9 @@ type BaseNodeService struct {
 	roundsMu sync.Mutex
 	// tickMu is held by the poller for a whole tick and by SaveOffset
 	tickMu sync.Mutex
+	// answerMu makes "look the operation up, post its result, retire it" one step: the same result
+	// submitted twice at the same time is posted once, the second submission finds it retired
+	answerMu sync.Mutex
 }
 
 func NewNode(ctx context.Context, config *config.Config, sp *services.ServiceProvider) (NodeService, error) {
@@ -276,6 +279,9 @@ func (s *BaseNodeService) executeOperation(operation *types.Operation) error {
 	if operation.Event.IsEmpty() {
 		return errors.New("operation is request operation, provide result operation instead")
 	}
+
+	s.answerMu.Lock()
+	defer s.answerMu.Unlock()
 
 	storedOperation, err := s.opService.GetOperationByID(operation.ID)
 	if err != nil {
